@@ -25,6 +25,7 @@ type Server struct {
 	SyncBinlog, FlushLog       int
 	SettingsWriter             string // caller that last wrote sync_binlog / innodb_flush_log_at_trx_commit
 	NoSemiSyncPlugin           bool   // semisync_status answers 1193
+	FSReadOnly                 bool   // the data directory's filesystem is read-only: nothing can be committed
 
 	Executed  GTIDSet
 	Retrieved GTIDSet // received through the current channel (applied or not)
@@ -53,7 +54,7 @@ type Server struct {
 }
 
 // Writable reports whether client commits are accepted.
-func (s *Server) Writable() bool { return s.Up && !s.ReadOnly && !s.Offline }
+func (s *Server) Writable() bool { return s.Up && !s.ReadOnly && !s.Offline && !s.FSReadOnly }
 
 // Positions returns Executed ∪ Retrieved.
 func (s *Server) Positions() GTIDSet {
